@@ -34,12 +34,13 @@ def connRead (w : W) (space : Nat) : W × Except RErr Bytes :=
     if s.length ≤ space then ({ w with segs := rest }, .ok s)
     else ({ w with segs := s.drop space :: rest }, .ok (s.take space))
 
+/-- one octet through the counter: LF resets it, then every octet (the LF included) counts -/
+def bump (cur : Nat) (b : Byte) : Nat := (if b == LF then 0 else cur) + 1
+
 /-- the counting loop of `lineLimitReader.Read`: `(cur', tripped?)` -/
 def countLoop (limit : Nat) : Nat → Bytes → Nat × Bool
   | cur, [] => (cur, false)
-  | cur, b :: t =>
-    let cur1 := (if b == LF then 0 else cur) + 1
-    if cur1 > limit then (cur1, true) else countLoop limit cur1 t
+  | cur, b :: t => if bump cur b > limit then (bump cur b, true) else countLoop limit (bump cur b) t
 
 /-- `lineLimitReader.Read(p)` -/
 def limRead (w : W) (space : Nat) : W × Except RErr Bytes :=
